@@ -167,7 +167,7 @@ func runC06(c *fw.C) {
 			err = p.New.T.DiffIter(e.Ctx, oldT, func(added, removed bool, key, av, rv interface{}) (bool, error) {
 				calls++
 				if calls == k {
-					return true, sentinel
+					return k%2 == 0, sentinel // an error, with keepGoing true or false: the error wins
 				}
 				return true, nil
 			})
